@@ -96,7 +96,7 @@ func shapeBFS(w *vhlib.Writer, k treeKind, U int, maxStates int) {
 		var labels []string
 		for kk := 1; kk <= U; kk++ {
 			for _, kind := range []int{0, 1} {
-				o := mop{kind, kk, kk}
+				o := mop{kind, kk - 1, kk} // universe keys 0..U-1: the zero key included
 				so := spreadOps([]mop{o}, cfg, false)[0]
 				t := k.mk(cfg.f)
 				st := c02step{o: so}
